@@ -53,7 +53,7 @@ fn own<T>(f: impl FnOnce() -> T) -> T {
 // ---------------------------------------------------------------- device + scripted handlers
 #[derive(Clone, Default)]
 pub struct Script {
-    pub pulls: Vec<bool>, // true = required
+    pub pulls: Vec<u8>, // 1 = required, 0 = optional, 2 = optional and lenient (a read error is swallowed: `while let Ok(Some(x))`)
     pub res: (i64, i64),
     pub hdr: Vec<u8>,
     pub items: Vec<Vec<u8>>,
@@ -112,10 +112,13 @@ impl LeafH {
             dev.scripts.get(k).cloned().unwrap_or_default()
         });
         for req in script.pulls.iter() {
-            let t = if *req {
-                Some(lib(|| params.next_token())?)
-            } else {
-                lib(|| params.next_optional_token())?
+            let t = match *req {
+                1 => Some(lib(|| params.next_token())?),
+                0 => lib(|| params.next_optional_token())?,
+                _ => match lib(|| params.next_optional_token()) {
+                    Ok(t) => t,
+                    Err(_) => break, // a handler that does not propagate the read error: the lexical fault must still fail the unit
+                },
             };
             if let Some(t) = t {
                 own(|| dev.calls.last_mut().unwrap().got.push(tok_json(&t)));
@@ -130,6 +133,10 @@ impl LeafH {
                     let _ = <&str>::try_from(t);
                     let _ = Arbitrary::try_from(t);
                     let _ = scpi::units::ElectricPotential::try_from(t);
+                    let _ = scpi::parser::suffix::Amplitude::<scpi::units::ElectricPotential>::try_from(t);
+                    let _ = scpi::parser::suffix::Db::<f32, scpi::units::ElectricPotential>::try_from(t);
+                    let _ = scpi::units::Frequency::try_from(t);
+                    let _ = RespFmt::try_from(t);
                     // list iterators do not advance past an error: stop at the first one
                     let _ = scpi::parser::expression::numeric_list::NumericList::try_from(t).map(|l| l.take(64).take_while(|x| x.is_ok()).count());
                     let _ = scpi::parser::expression::channel_list::ChannelList::try_from(t).map(|l| l.take(64).take_while(|x| x.is_ok()).count());
@@ -174,6 +181,7 @@ enum Plan {
     Int(i64),
     Float(f64),
     Str(usize, usize),
+    StrVal(Vec<u8>),
     Block(usize),
     Err(i64, i64),
     Enum(RespFmt),
@@ -226,6 +234,30 @@ fn plan_item(it: &[u8]) -> Plan {
     }
     if it.len() >= 2 && it[0] == b'"' && it[it.len() - 1] == b'"' && !it[1..it.len() - 1].contains(&b'"') {
         return Plan::Str(1, it.len() - 1);
+    }
+    // a string whose content has double quotes (doubled in the text): the value is the text with each pair collapsed
+    if it.len() >= 4 && it[0] == b'"' && it[it.len() - 1] == b'"' {
+        let inner = &it[1..it.len() - 1];
+        let mut val = vec![];
+        let mut i = 0;
+        let mut ok = true;
+        while i < inner.len() {
+            if inner[i] == b'"' {
+                if i + 1 < inner.len() && inner[i + 1] == b'"' {
+                    val.push(b'"');
+                    i += 2;
+                } else {
+                    ok = false;
+                    break;
+                }
+            } else {
+                val.push(inner[i]);
+                i += 1;
+            }
+        }
+        if ok {
+            return Plan::StrVal(val);
+        }
     }
     if it.len() >= 3 && it[0] == b'#' && (b'1'..=b'9').contains(&it[1]) {
         let n = (it[1] - b'0') as usize;
@@ -306,6 +338,7 @@ fn write_item(r: &mut ResponseUnit, it: &[u8]) {
             if alt { r.data(Character(it)) } else { r.data(v) }
         }
         Plan::Str(a, b) => r.data(&it[a..b]),
+        Plan::StrVal(v) => r.data(&v[..]),
         Plan::Block(a) => {
             let alt = other_spelling(&Arbitrary(&it[a..]), it, |p| block_payload(p) == Some(&it[a..]));
             if alt { r.data(Character(it)) } else { r.data(Arbitrary(&it[a..])) }
@@ -372,7 +405,7 @@ pub fn build_tree(t: &Value) -> &'static Node<'static, XDev> {
 
 pub fn script_from_json(v: &Value) -> Script {
     Script {
-        pulls: v["pulls"].as_array().map(|a| a.iter().map(|p| p == "req").collect()).unwrap_or_default(),
+        pulls: v["pulls"].as_array().map(|a| a.iter().map(|p| if p == "req" { 1 } else if p == "lopt" { 2 } else { 0 }).collect()).unwrap_or_default(),
         res: (v["res"]["code"].as_i64().unwrap_or(0), v["res"]["ext"].as_i64().unwrap_or(0)),
         hdr: bytes_from_json(&v["hdr"]),
         items: v["items"].as_array().map(|a| a.iter().map(bytes_from_json).collect()).unwrap_or_default(),
